@@ -23,7 +23,11 @@ def sig_of(case, prog, clause, pos):
     sig = {"clause": clause, "pos": pos, "vol_dtype": prog["vol"]["dtype"],
            "channels": (prog["vol"]["shape"][3] if len(prog["vol"]["shape"]) == 4
                         else (3 if prog["vol"].get("rgb") else 1)),
-           "rgb": bool(prog["vol"].get("rgb"))}
+           "rgb": bool(prog["vol"].get("rgb")), "header_scaling": bool(prog["vol"].get("scl")),
+           "ignore_scaling": bool(prog.get("ignore_scaling")),
+           "obstructed": any(c["op"] == "Obstruct" for c in prog["cmds"]),
+           "several_chunk_sizes": any(c["op"] == "Rechunk" or (c["op"] == "Edit" and c["m"].startswith("cs"))
+                                      for c in prog["cmds"])}
     if ev is None:
         return sig
     c = ev["cmd"]
